@@ -17,7 +17,7 @@ class C01:
     RULE = ("Hypothesis builds a network of 2-4 real ECUs (1-2 address-holding CAs each, optional unfiltered ECU "
             "listener, max_cmdt_packets 1..255 per stack, per-receiver latency lists over {0,1us,50us,0.2,0.5,1,2.5,5 ms}, "
             "wake-up lateness/dispatch 0..1 ms) and 1-8 messages (0..1785 bytes, PDU1->CA, PDU1->255, PDU2, PDU1->unowned, "
-            "from application or timer-callback context, submit offsets 0..100 ms so transfers overlap; a busy (SA,DA) "
+            "from application, timer-callback or receive-callback context, send calls of a stack thread taking 0 / 0.1 / 0.5 ms, submit offsets 0..100 ms so transfers overlap; a busy (SA,DA) "
             "pair is reused only after the model says it is free); non-trivial = at least one multi-packet transfer was "
             "delivered; distinct = distinct parameter sets")
     ASSUMPTIONS = [
@@ -57,7 +57,7 @@ class C01:
         try:
             results = {}
             N.submit_all(w, stacks, params, times, results)
-            horizon = max(t + N.duration_bound(params, m, self.BAM_DT) for t, m in zip(times, params["msgs"])) + 2.0
+            horizon = max(t + N.duration_bound(params, m, self.BAM_DT) for t, m in zip(times, params["msgs"])) + 2.0 + 0.5
             w.run_until(w.t0 + horizon)
             for kind, detail, tt in w.liveness_problems():
                 V("liveness-" + kind, "%s %r at t=%.6f" % (kind, detail, tt - 1000))
@@ -97,6 +97,10 @@ class C01:
             labels.append("zero-latency")
         if any(m["ctx"] == "timer" for m in params["msgs"]):
             labels.append("from-timer")
+        if any(m["ctx"] == "on_rx" and not N.multi(params, m) for m in params["msgs"]):
+            labels.append("from-rx-callback")
+        if any(s.get("tx_time") for s in params["stacks"]):
+            labels.append("send-call-takes-time")
         kinds = {m["kind"] for m in params["msgs"] if N.multi(params, m)}
         for k in sorted(kinds):
             labels.append("multi-" + k)
